@@ -461,6 +461,42 @@ pub fn check_hashsim(property: &str, tier: &str) -> i32 {
             }
         }
     }
+    // another process, and one that has done nothing before: every program once more, alone, in a
+    // process without the workers' warm-up; the canonical outcome must be the one the workers saw
+    if property == "C05" {
+        let mut jobs = Vec::new();
+        let mut meta = Vec::new();
+        for (id, recs) in &by_subject {
+            let Some(subject) = subj_by_id.get(id) else { continue };
+            let sj = subject.to_json();
+            if sj["kind"].as_str() != Some("program") || recs.iter().any(|r| r.1 != recs[0].1) {
+                continue;
+            }
+            let cold = json!({"sim": "hashsim", "boot_seed": recs[0].0, "subject": sj, "key_seed": recs[0].3, "prefix": [], "cold": true});
+            jobs.push((vec!["single".to_string(), "hashsim".to_string()], cold.clone()));
+            meta.push((id.clone(), recs[0].clone(), cold));
+        }
+        let n_cold = jobs.len();
+        for ((id, rec, cold), out) in meta.into_iter().zip(proc::call_many(jobs, par)) {
+            match out {
+                Ok(o) => {
+                    runs += 1;
+                    if o["canon"].as_str() != Some(rec.2.as_str()) {
+                        let mut warm = cold.clone();
+                        warm["cold"] = json!(false);
+                        candidates.push(json!({
+                            "class": "seed-dependent",
+                            "detail": format!("alone in a process that did nothing before: {:.300}  |  in a process that had run the warm-up programs: {:.300}", o["canon"].as_str().unwrap_or(""), rec.2),
+                            "subject_id": id,
+                            "runs": [cold, warm],
+                        }));
+                    }
+                }
+                Err(e) => harness_errors.push(json!({"what": "cold single run failed", "error": e})),
+            }
+        }
+        let _ = n_cold;
+    }
     for (id, (seen, orders)) in &printed_by_subject {
         if *orders > 0 {
             rt_types += 1;
